@@ -32,7 +32,8 @@ RULE = ("History = (functional x method x user-object kind x function kind x usa
         "forward+graph-recording backward+second backward} x persistent-or-rebuilt user object x debug mode on/off x method tuning knobs x LAPACK failing once per call x cycle length 1-3 x "
         "release order), repeated for 5 (quick) cycles with the cyclic GC disabled; census of live torch.Tensor "
         "objects (gc.get_objects) whenever the result pool is empty. Violation iff the tensor count strictly "
-        "increases on each of three consecutive cycles after the warm-up cycle. A case is non-trivial iff the call "
+        "increases on each of three consecutive cycles after the warm-up cycle, or iff on three consecutive cycles "
+        "tensors allocated during the cycle survive its release (retention that is replaced, not accumulated). A case is non-trivial iff the call "
         "entered the user's callee at least once and produced a differentiable result; distinct = distinct "
         "(functional, method, object kind, function kind, usage, persistent?, cycle length) tuples.")
 ASSUMPTIONS = [
@@ -70,6 +71,40 @@ def census():
                 pass
     o = None
     return n, nbytes, ids
+
+
+class Births(object):
+    """which live tensors were first seen at which census - robust against id() reuse: an entry is a weak
+    reference, checked for identity, and removed when its tensor dies"""
+
+    def __init__(self):
+        self.reg = {}
+
+    def census(self, cycle):
+        """registers every live tensor not seen before; returns (live count, number newly registered)"""
+        import weakref
+        n = 0
+        new = 0
+        kinds = {}
+        for o in gc.get_objects():
+            if isinstance(o, torch.Tensor):
+                n += 1
+                ent = self.reg.get(id(o))
+                if ent is None or ent[0]() is not o:
+                    key = id(o)
+                    reg = self.reg
+
+                    def _gone(ref, key=key, reg=reg):
+                        e = reg.get(key)
+                        if e is not None and e[0] is ref:
+                            del reg[key]
+                    self.reg[key] = (weakref.ref(o, _gone), cycle)
+                    new += 1
+                    k = "%s %s grad_fn=%s" % (tuple(o.shape), str(o.dtype).replace("torch.", ""),
+                                              type(o.grad_fn).__name__ if o.grad_fn is not None else None)
+                    kinds[k] = kinds.get(k, 0) + 1
+        o = None
+        return n, new, kinds
 
 
 def describe_new(ids_before):
@@ -235,6 +270,9 @@ def run(cs, cfg):
     counts = []
     nbytes = []
     idsets = []
+    births = Births()
+    newborn = []
+    newkinds = []
     raised = None
     differentiable = False
     env_holder = []
@@ -257,6 +295,9 @@ def run(cs, cfg):
                 counts.append(c)
                 nbytes.append(b)
                 idsets.append(ids)
+                _, nb_, kinds_ = births.census(cyc)
+                newborn.append(nb_)
+                newkinds.append(kinds_)
                 SIM.note("census", cyc)
     except Exception as e:   # the functional rejected this configuration: nothing to judge
         raised = "%s: %s" % (type(e).__name__, str(e)[:200])
@@ -289,6 +330,22 @@ def run(cs, cfg):
                                     dict(sorted(new.items(), key=lambda kv: -kv[1])[:8]))})
         elif any(x > 0 for x in post):
             cnt("one_off_growth_not_flagged")
+        # per-call retention that is replaced rather than accumulated: tensors first seen at the census of cycle c
+        # (allocated during that cycle and still alive after its outputs were released), on three consecutive
+        # cycles after the warm-up cycle
+        decoded["new_survivors_per_cycle"] = newborn
+        pn = newborn[2:] if len(newborn) > 4 else newborn[1:]
+        if not grow3 and any(all(x > 0 for x in pn[i:i + 3]) for i in range(0, max(len(pn) - 2, 0))):
+            viol.append({"sig": {"inv": "per_call_retention", "functional": label[0], "usage": sc["usage"],
+                                 "adaptive": str(label[1] in ("rk23", "rk45")), "debug": str(bool(sc.get("debug_on")))},
+                         "detail": "after every cycle some tensors allocated during that cycle are still alive once all "
+                                   "results are released (replaced at the next call, so the count does not grow): new "
+                                   "survivors per cycle=%s live counts=%s functional=%s kind=%s fkind=%s usage=%s "
+                                   "persistent=%s; last cycle's survivors by kind: %s" %
+                                   (newborn, counts, label, kind, sc["fkind"], sc["usage"], sc["persist"],
+                                    dict(sorted(newkinds[-1].items(), key=lambda kv: -kv[1])[:6]))})
+        elif any(x > 0 for x in pn):
+            cnt("one_off_new_survivors_not_flagged")
         if SIM.seq > 0 and differentiable:
             cases.append("|".join(str(x) for x in (label[0], label[1], kind, sc["fkind"], sc["usage"],
                                                     sc["persist"], sc["cycle_len"])))
@@ -301,6 +358,7 @@ def run(cs, cfg):
     # the pinned scheduler runs once at the end: what it frees is cyclic garbage
     idsets = None
     env_holder = None
+    births = None
     before = census()[0]
     gc.collect()
     after = census()[0]
